@@ -182,8 +182,8 @@ class PartialProfile(Profile):
         # ---- futures
         if "future_set" in ops and isinstance(sub, ast.Call) and isinstance(sub.func, ast.Attribute):
             if sub.func.attr in ("set_result", "set_exception"):
-                recv = _unparse(sub.func.value)
-                yield INVALID_STATE, self._done_guards(cfg, recv), f"{recv}.{sub.func.attr}()"
+                recv = self._path(ctx, cfg, n, sub.func.value)
+                yield INVALID_STATE, self._done_guards(ctx, cfg, recv), f"{recv}.{sub.func.attr}()"
         # ---- indexing
         if "index" in ops:
             names = ops["index"]
@@ -321,13 +321,23 @@ class PartialProfile(Profile):
                             edges += cfg.out_edges(n, ("n",))
         return edges
 
-    def _done_guards(self, cfg: CFG, recv: str) -> list:
+    @staticmethod
+    def _path(ctx, cfg: CFG, n, e) -> str:
+        """The expression as a dotted path with local aliases of attributes resolved by data flow
+        (`f = self._fut; f.set_result(..)` is `self._fut`), else its text."""
+        try:
+            p = ctx.expr_path(cfg, n, e)
+        except Exception:  # noqa: BLE001 - a term that cannot be built is simply not a path
+            p = None
+        return p if p and "." in p else _unparse(e)
+
+    def _done_guards(self, ctx, cfg: CFG, recv: str) -> list:
         edges = []
         for n in cfg.nodes:
             if n.kind != "test":
                 continue
             e = n.exprs[0]
-            if isinstance(e, ast.Call) and isinstance(e.func, ast.Attribute) and e.func.attr == "done" and _unparse(e.func.value) == recv:
+            if isinstance(e, ast.Call) and isinstance(e.func, ast.Attribute) and e.func.attr == "done" and self._path(ctx, cfg, n, e.func.value) == recv:
                 edges += cfg.out_edges(n, ("F",))
         return edges
 
